@@ -122,13 +122,17 @@ func (k *Keyring) RemoveKey(key []byte) error {
 	k.l.Lock()
 	defer k.l.Unlock()
 
-	if bytes.Equal(key, k.keys[0]) {
+	if len(k.keys) > 0 && bytes.Equal(key, k.keys[0]) {
 		return fmt.Errorf("removing the primary key is not allowed")
 	}
 	for i, installedKey := range k.keys {
 		if bytes.Equal(key, installedKey) {
-			keys := append(k.keys[:i], k.keys[i+1:]...)
+			// The full slice expression caps the capacity so that append
+			// copies instead of shifting the remaining keys inside the
+			// backing array, which callers of GetKeys may still be reading.
+			keys := append(k.keys[:i:i], k.keys[i+1:]...)
 			k.installKeysLocked(keys, k.keys[0])
+			break
 		}
 	}
 	return nil
